@@ -11,7 +11,8 @@
       no result, `update_peer_index` → monotone `update_match_index`, `calculate_new_commit_index`,
       the `quorum_confirmed` computation and the renewal),
       `handle_inbound_event` branches `ReceiveVoteRequest`, `AppendEntries`, `ClusterConfUpdate` (step-down side),
-      `become_follower`, `is_lease_valid`, `init_peers_next_index_and_match_index` (inserts nothing for `0`)
+      `become_follower`, `is_lease_valid`, `init_peers_next_index_and_match_index` (inserts nothing for `0`;
+      the quorum vectors are built from `replication_targets` with `unwrap_or(0)` since fixes 6ed8b1f / a5e530a)
   * d-engine-core/src/storage/buffered_raft_log.rs `calculate_majority_matched_index`
   * d-engine-server/src/read_actor.rs `serve_read` / api/embedded_read_handle.rs `get_batch`:
       the lease test of both fast paths is `lease.is_valid(now_ms())`
@@ -104,12 +105,9 @@ def majorityMatched (s : LState) (matched : List Nat) : Option Nat :=
     | some t => if t = s.term then some mi else none
     | none => none
 
-/-- the voter filter applied to `match_index` in `quorum_confirmed` (only peers present in the map: F30-lease) -/
-def voterMatches (c : Cfg) (s : LState) : List Nat :=
-  (s.matchIdx.filter (fun pm => isVoterPeer c pm.1)).map (·.2)
-
-/-- `calculate_new_commit_index` (after `fix: count every voter in the leader's commit quorum`): every voter peer of
-    `replication_targets` counts, with 0 when it has no `match_index` entry. -/
+/-- the vector handed to `calculate_majority_matched_index` by `calculate_new_commit_index` and `quorum_confirmed`
+    (after the two `fix:` commits 6ed8b1f / a5e530a): every voter peer of `replication_targets` counts, with 0 when it
+    has no `match_index` entry (before the fixes only peers present in the map were counted: F30 / F30-lease). -/
 def allVoterMatches (c : Cfg) (s : LState) : List Nat :=
   (((List.range (c.n + 1)).filter (fun p => isVoterPeer c p)).map (matchOf s.matchIdx))
 
@@ -118,7 +116,9 @@ def calcNewCommit (c : Cfg) (s : LState) : Option Nat :=
   | some i => if i > s.commit then some i else none
   | none => none
 
-def quorumConfirmed (c : Cfg) (s : LState) : Bool := (majorityMatched s (voterMatches c s)).isSome
+/-- `quorum_confirmed` in `handle_append_result` (after `fix: lease/read quorum confirmation must count every voter
+    too`): the same vector as `calculate_new_commit_index`. -/
+def quorumConfirmed (c : Cfg) (s : LState) : Bool := (majorityMatched s (allVoterMatches c s)).isSome
 
 /-- `update_lease_timestamp(send_ts, lease)` -/
 def renewFrom (c : Cfg) (s : LState) (sendTs : UInt64) : LState :=
@@ -313,27 +313,25 @@ end DEngine.Lease
 /-! ## Monitors: the decidable predicates of C12, evaluated on observations (of the implementation) -/
 namespace DEngine.Lease
 
-/-- insert/raise the freshest acknowledged send time of voter `p` -/
-def raiseFresh (f : List (Nat × Nat)) (p : Nat) (ts : Nat) : List (Nat × Nat) :=
-  match f.find? (·.1 == p) with
-  | some (_, old) => if ts > old then (p, ts) :: f.filter (·.1 != p) else f
-  | none => (p, ts) :: f
-
-/-- The newest send time `s` such that at least `need` voter peers have acknowledged a round sent at or after `s`
-    (`need` = peers required besides the leader for a majority). `none`: no such round exists. -/
-def freshAnchor (need : Nat) (fresh : List Nat) : Option Nat :=
-  if need = 0 then none   -- single voter: no peer round involved
-  else (sortDesc fresh)[need - 1]?
+/-- ghost record of the acknowledgements the leader has processed: (voter, send time of the acknowledged round) -/
+def raiseFresh (f : List (Nat × Nat)) (p : Nat) (ts : Nat) : List (Nat × Nat) := (p, ts) :: f
 
 /-- peers needed besides the leader for a majority of `n` voters -/
 def peersNeeded (n : Nat) : Nat := n / 2
 
-/-- H_freshRound for one renewal: the new deadline is at most (send time of a round acknowledged by a fresh
-    majority) + lease. -/
-def renewalFresh (n : Nat) (lease : Nat) (fresh : List Nat) (deadline : Nat) : Bool :=
-  match freshAnchor (peersNeeded n) fresh with
-  | some a => deadline ≤ a + lease
-  | none => false
+/-- voter `v` has acknowledged a heartbeat round that was sent at or after `deadline - lease` -/
+def ackedSince (fresh : List (Nat × Nat)) (lease deadline : Nat) (v : Nat) : Bool :=
+  fresh.any (fun e => e.1 == v && decide (deadline ≤ e.2 + lease))
+
+/-- **H_freshRound for one renewal** (the decidable predicate shared by the monitor and the timing theorem):
+    at least `need` voter peers have acknowledged a heartbeat round whose send time `s` satisfies
+    `deadline ≤ s + lease`; with the leader itself that is a majority that was still following this leader at or
+    after `deadline - lease`. -/
+def renewalFresh (voters : List Nat) (need lease : Nat) (fresh : List (Nat × Nat)) (deadline : Nat) : Bool :=
+  decide (voters.countP (ackedSince fresh lease deadline) ≥ need)
+
+/-- the voter peers in the numbering of the `lease` family (leader = 1, peers 2..n, minus learners) -/
+def voterPeers (c : Cfg) : List Nat := (List.range (c.n + 1)).filter (isVoterPeer c)
 
 structure MonSt where
   term : Nat
@@ -343,7 +341,7 @@ structure MonSt where
   revokedSeen : Bool
   stepped : Bool
   sends : List Nat          -- send time of heartbeat round i (1-based)
-  fresh : List (Nat × Nat)  -- per voter peer: newest send time it has acknowledged
+  fresh : List (Nat × Nat)  -- accepted acks of voter peers: (peer, send time of the acknowledged round)
   ghostOk : Bool            -- every accepted voter ack so far named its round
 deriving Repr
 
@@ -398,8 +396,9 @@ def monStep (c : Cfg) (m : MonSt) (op : Op) (out : Out) : MonSt × Option String
               if o.ld != m.prevLd && o.ld != 0 then
                 if o.lt.toNat != o.term % 65536 then some "lease-term-bits-wrong"
                 else if !ghostOk then none
-                else if fresh.length < peersNeeded c.n then some "lease-renewed-with-fewer-than-majority-acks"
-                else if renewalFresh c.n c.leaseDur.toNat (fresh.map (·.2)) o.ld.toNat then none
+                else if (voterPeers c).countP (fun v => fresh.any (·.1 == v)) < peersNeeded c.n then
+                  some "lease-renewed-with-fewer-than-majority-acks"
+                else if renewalFresh (voterPeers c) (peersNeeded c.n) c.leaseDur.toNat fresh o.ld.toNat then none
                 else some "lease-renewed-without-fresh-majority-round"
               else none
           | _ => none
